@@ -21,6 +21,8 @@ IMAGES = {
     "rnd2": _lcg(4242),
     "ascii": lambda i: 0x41 + (i % 26),
     "valid": lambda i: 0x01,
+    "six": lambda i: 0x06,              # scale byte of scaled values at its upper limit (10^6)
+    "fa": lambda i: 0xFA,               # ... and at its lower limit (10^-6)
 }
 
 
